@@ -155,12 +155,12 @@ class Ctx:
 
     # -- registration ---------------------------------------------------------------------------
     def add(self, bench_name, K, chunk=None, timeout=None, induction=None, diff_cycles=10,
-            cover_required=True, expect=None, bads=None, **kw):
+            cover_required=True, expect=None, bads=None, min_K=None, **kw):
         """BMC job.  chunk: number of frames per violation query (None: all frames in one query
         per bad signal)."""
         self.jobs[bench_name] = dict(K=K, chunk=chunk, timeout=timeout, induction=induction,
                                      diff_cycles=diff_cycles, cover_required=cover_required, seed=self.seed,
-                                     only_bads=bads, **kw)
+                                     only_bads=bads, min_K=min_K, **kw)
 
     def oblige(self, label, result, secs=0.0, expect="unsat", detail=None, sample=None):
         """record a directly solved obligation (combinational / arithmetic queries).
@@ -261,14 +261,25 @@ class Ctx:
         self.transitions += K
         qs = []
         chunk = job["chunk"] or (K + 1)
+        min_K = job.get("min_K")
         for bad in res["bads"]:
             if job["only_bads"] and bad not in job["only_bads"]:
                 continue
-            for lo in range(0, K + 1, chunk):
-                hi = min(K, lo + chunk - 1)
-                qs.append(dict(kind="violation", name=bad, lo=lo, hi=hi, text=text,
+            if min_K is not None and min_K < K:
+                # frames 0..min_K must be decided; deeper frames are explored in chunks under the time budget and the
+                # depth actually discharged is reported (a timeout there is a stated bound, not a pass and not a failure)
+                ranges = [(0, min_K, True)]
+                lo = min_K + 1
+                while lo <= K:
+                    hi = min(K, lo + chunk - 1)
+                    ranges.append((lo, hi, False))
+                    lo = hi + 1
+            else:
+                ranges = [(lo, min(K, lo + chunk - 1), True) for lo in range(0, K + 1, chunk)]
+            for lo, hi, required in ranges:
+                qs.append(dict(kind="violation", name=bad, lo=lo, hi=hi, text=text, required=required,
                                clauses=[["V!%s!%d" % (bad, t) for t in range(lo, hi + 1)]], negs=[],
-                               timeout=job["timeout"]))
+                               timeout=job["timeout"] if required else job.get("deep_timeout", job["timeout"])))
         for cov in res["covers"]:
             qs.append(dict(kind="cover", name=cov, lo=0, hi=K, text=text,
                            clauses=[["COV!%s!%d" % (cov, t) for t in range(0, K + 1)]], negs=[],
@@ -288,7 +299,12 @@ class Ctx:
         rec = dict(bench=bn, kind=q["kind"], goal=q["name"], frames=[q["lo"], q["hi"]], result=result,
                    solver_s=round(secs, 3))
         job = self.jobs[bn]
-        if result == "unknown":
+        if result == "unknown" and q["kind"] == "violation" and not q.get("required", True):
+            rec["reason"] = reason
+            rec["note"] = "beyond the floor depth: not discharged within the time budget (stated bound)"
+            self.bench_records[bn].setdefault("undischarged_deep_frames", []).append([q["name"], q["lo"], q["hi"]])
+            self.obligations -= 1
+        elif result == "unknown":
             rec["reason"] = reason
             self.inconclusive.append("bench %s %s %s frames %d..%d: solver unknown (%s)" % (
                 bn, q["kind"], q["name"], q["lo"], q["hi"], reason))
@@ -374,6 +390,11 @@ class Ctx:
         for r in self.records:
             r.pop("_stim", None)
             r.pop("_recs", None)
+        # deepest frame up to which every violation query of a bench was discharged
+        for bn, br in self.bench_records.items():
+            und = br.get("undischarged_deep_frames")
+            if "K" in br:
+                br["depth_discharged_all_monitors"] = min([lo - 1 for _, lo, hi in und]) if und else br["K"]
 
     # -- evidence ------------------------------------------------------------------------------
     def write_evidence(self, level="model_checking", explanation=None, technique=None):
